@@ -26,7 +26,7 @@ func init() {
 		ID:        "C19",
 		Level:     "exploration",
 		Technique: "stateful property-based testing (rapid): generated call histories with an invariant on the goroutine profile and the open-descriptor set after the history",
-		Rule: "histories of 1-40 calls drawn from {Parse, Execute, ExecuteSafe} x loaders {string, memory, filesystem over a generated directory} x templates {valid; a syntax error injected at a random token position or a truncation at a random offset (so that unread tokens remain); run-time failure; missing file; valid template including / extending a broken or missing one}; plus one history over a template whose syntax error is followed by 24 MB (thorough: 64 MB) of well-formed source. " +
+		Rule: "histories of 1-40 calls drawn from {Parse, Execute, ExecuteSafe} x loaders {string, memory, filesystem over a generated directory} x templates {valid; a syntax error injected at a random token position or a truncation at a random offset (so that unread tokens remain); run-time failure; missing file; valid template including / extending a broken or missing one}; plus one history over a template whose syntax error is followed by 16 MB of well-formed source. " +
 			"Oracle (invariant after the history, GC disabled for its duration, bounded 200 ms settle): the goroutine profile contains no new goroutine with a stick frame and the set of open descriptors equals the set before the history. " +
 			"Non-trivial: the history contains >= 1 parse failure that leaves unread tokens and >= 1 filesystem load; counted per distinct history.",
 		Assumptions: []string{"goroutines are attributed to the library by a stick frame on their stack; descriptors by /proc/self/fd", "GC is disabled during a history so that os.File finalizers cannot mask an unclosed file"},
@@ -150,7 +150,7 @@ func init() {
 			for i := 0; i < 6; i++ {
 				calls = append(calls, sb.Call{Kind: []string{"execute", "parse", "safe"}[i%3], Env: "core", Loader: []string{"memory", "fs"}[i%2], Entry: []string{"bigbroken", "inc-big"}[i/3]})
 			}
-			sub.Check(c, &c19Case{Templates: map[string]string{"ok": "fine"}, Calls: calls, BigMB: c.Pick(24, 64)})
+			sub.Check(c, &c19Case{Templates: map[string]string{"ok": "fine"}, Calls: calls, BigMB: 16})
 		}
 		sub.Rapid(c, c.Share(c.Pick(2000, 200000)), func(t *rapid.T) *c19Case { return genHistory(t, 40) })
 		if !c.Quick() && c.Shard == 0 {
